@@ -28,7 +28,7 @@ type c19Case struct {
 	Lazy bool `json:"lazy"`
 }
 
-var c19Kinds = []string{"honest", "honest", "honest", "other-signer", "other-signer-with-key", "claims-other", "tampered-body", "tampered-sig", "unsigned", "other-context", "other-context-verified", "empty-body"}
+var c19Kinds = []string{"honest", "honest", "honest", "honest-large", "tampered-tail-large", "other-signer", "other-signer-with-key", "claims-other", "tampered-body", "tampered-sig", "unsigned", "other-context", "other-context-verified", "empty-body"}
 
 func genC19(t *rapid.T) c19Case {
 	n := rapid.IntRange(1, 10).Draw(t, "n")
@@ -133,7 +133,7 @@ func checkC19(c c19Case) (o vstat.Outcome) {
 			before := ap.count()
 			sess.deliver(&signaling.SessionResponse{Body: &signaling.SessionResponse_RecvMsg{RecvMsg: m}})
 			hist = append(hist, "deliver:"+st.Kind)
-			if st.Kind == "honest" {
+			if honestKind(st.Kind) {
 				honest = append(honest, m)
 				if c.Lazy {
 					time.Sleep(settleWindow() / 3)
